@@ -64,7 +64,9 @@ func bnd(v cty.Value, label string) model.C05Bound {
 	return b
 }
 
-func ibnd(i int64) model.C05Bound { return bnd(cty.NumberIntVal(i), fmt.Sprintf("cty.NumberIntVal(%d)", i)) }
+func ibnd(i int64) model.C05Bound {
+	return bnd(cty.NumberIntVal(i), fmt.Sprintf("cty.NumberIntVal(%d)", i))
+}
 
 func fbnd(f *big.Float) model.C05Bound {
 	return bnd(cty.NumberVal(f), fmt.Sprintf("cty.MustParseNumberVal(%q)", f.Text('g', -1)))
@@ -75,8 +77,12 @@ var (
 	posInfSingleton = bnd(cty.PositiveInfinity, "cty.PositiveInfinity")
 )
 
-func negInfFresh() model.C05Bound { return bnd(cty.NumberFloatVal(math.Inf(-1)), "cty.NumberFloatVal(math.Inf(-1))") }
-func posInfFresh() model.C05Bound { return bnd(cty.NumberFloatVal(math.Inf(1)), "cty.NumberFloatVal(math.Inf(1))") }
+func negInfFresh() model.C05Bound {
+	return bnd(cty.NumberFloatVal(math.Inf(-1)), "cty.NumberFloatVal(math.Inf(-1))")
+}
+func posInfFresh() model.C05Bound {
+	return bnd(cty.NumberFloatVal(math.Inf(1)), "cty.NumberFloatVal(math.Inf(1))")
+}
 
 // the nine bound values of the enumerated menu: equal neighbours, the same
 // number at another precision, and both infinities as singleton and freshly built.
@@ -86,13 +92,17 @@ func menuBounds() []model.C05Bound {
 	}
 }
 
-func lower(b model.C05Bound, inc bool) model.C05Call { return model.C05Call{K: model.C05Lower, B: b, Inc: inc} }
-func upper(b model.C05Bound, inc bool) model.C05Call { return model.C05Call{K: model.C05Upper, B: b, Inc: inc} }
-func lenLower(n int) model.C05Call                  { return model.C05Call{K: model.C05LenLower, N: n} }
-func lenUpper(n int) model.C05Call                  { return model.C05Call{K: model.C05LenUpper, N: n} }
-func lenExact(n int) model.C05Call                  { return model.C05Call{K: model.C05Len, N: n} }
-func prefFull(s string) model.C05Call               { return model.C05Call{K: model.C05PrefixFull, S: s} }
-func prefSafe(s string) model.C05Call               { return model.C05Call{K: model.C05PrefixSafe, S: s} }
+func lower(b model.C05Bound, inc bool) model.C05Call {
+	return model.C05Call{K: model.C05Lower, B: b, Inc: inc}
+}
+func upper(b model.C05Bound, inc bool) model.C05Call {
+	return model.C05Call{K: model.C05Upper, B: b, Inc: inc}
+}
+func lenLower(n int) model.C05Call    { return model.C05Call{K: model.C05LenLower, N: n} }
+func lenUpper(n int) model.C05Call    { return model.C05Call{K: model.C05LenUpper, N: n} }
+func lenExact(n int) model.C05Call    { return model.C05Call{K: model.C05Len, N: n} }
+func prefFull(s string) model.C05Call { return model.C05Call{K: model.C05PrefixFull, S: s} }
+func prefSafe(s string) model.C05Call { return model.C05Call{K: model.C05PrefixSafe, S: s} }
 
 var (
 	notNull = model.C05Call{K: model.C05NotNull}
@@ -144,16 +154,54 @@ func fixedCollProbes(ty cty.Type) []model.C05Probe {
 var objTy = cty.Object(map[string]cty.Type{"a": cty.String})
 var tupTy = cty.Tuple([]cty.Type{cty.Number, cty.Bool})
 
+// further structural types of the same KIND (and the same friendly name) as objTy / tupTy: a range of one
+// object type must tell values of the other object types apart, whatever was asked before
+var objDynTy = cty.Object(map[string]cty.Type{"a": cty.DynamicPseudoType})
+var objOtherTy = cty.Object(map[string]cty.Type{"b": cty.Number})
+var tupOtherTy = cty.Tuple([]cty.Type{cty.String})
+
 func nullableValue(ty cty.Type) cty.Value {
 	switch {
 	case ty == cty.Bool:
 		return cty.True
 	case ty.Equals(objTy):
 		return cty.ObjectVal(map[string]cty.Value{"a": cty.StringVal("x")})
+	case ty.Equals(objDynTy):
+		return cty.ObjectVal(map[string]cty.Value{"a": cty.NumberIntVal(7)})
+	case ty.Equals(objOtherTy):
+		return cty.ObjectVal(map[string]cty.Value{"b": cty.NumberIntVal(2)})
 	case ty.Equals(tupTy):
 		return cty.TupleVal([]cty.Value{cty.NumberIntVal(1), cty.False})
+	case ty.Equals(tupOtherTy):
+		return cty.TupleVal([]cty.Value{cty.StringVal("t")})
 	case ty.Equals(model.CapsuleA):
 		return model.NewCapA(1)
+	}
+	// any other object / tuple type (e.g. the concrete type of a known receiver declared with a dynamic attribute)
+	simple := func(t cty.Type) cty.Value {
+		switch t {
+		case cty.String:
+			return cty.StringVal("x")
+		case cty.Number:
+			return cty.NumberIntVal(7)
+		case cty.Bool:
+			return cty.True
+		}
+		return cty.NullVal(t)
+	}
+	switch {
+	case ty.IsObjectType():
+		vs := map[string]cty.Value{}
+		for k, t := range ty.AttributeTypes() {
+			vs[k] = simple(t)
+		}
+		return cty.ObjectVal(vs)
+	case ty.IsTupleType():
+		var vs []cty.Value
+		for _, t := range ty.TupleElementTypes() {
+			vs = append(vs, simple(t))
+		}
+		return cty.TupleVal(vs)
 	}
 	panic("no value for " + ty.FriendlyName())
 }
@@ -162,7 +210,20 @@ func nullableProbes(ty cty.Type) []model.C05Probe {
 	if ty == cty.DynamicPseudoType {
 		return []model.C05Probe{nullProbe(ty), {V: cty.StringVal("x")}}
 	}
-	return []model.C05Probe{nullProbe(ty), {V: nullableValue(ty)}, wrongTypeProbe(ty)}
+	ps := []model.C05Probe{nullProbe(ty), {V: nullableValue(ty)}, wrongTypeProbe(ty)}
+	// values of the other types of the same kind: conforming ones (an object{a:string} value conforms to
+	// object{a:dynamic}) are admitted like the type's own value, the others are of the wrong type
+	if ty.IsObjectType() || ty.IsTupleType() {
+		for _, oty := range []cty.Type{objTy, objDynTy, objOtherTy, tupTy, tupOtherTy} {
+			if oty.Equals(ty) {
+				continue
+			}
+			v := nullableValue(oty)
+			ps = append(ps, model.C05Probe{V: v, WrongType: v.Type().TestConformance(ty) != nil})
+			ps = append(ps, model.C05Probe{V: nullableValue(ty)}) // and the own value again, after the foreign one
+		}
+	}
+	return ps
 }
 
 func families() []family {
@@ -220,7 +281,7 @@ func families() []family {
 	{
 		calls := []model.C05Call{notNull, isNull, lower(ibnd(0), true), lenUpper(1), prefSafe("a")}
 		var recvs []receiver
-		for _, ty := range []cty.Type{cty.Bool, objTy, tupTy, model.CapsuleA} {
+		for _, ty := range []cty.Type{cty.Bool, objTy, tupTy, model.CapsuleA, objDynTy, objOtherTy, tupOtherTy} {
 			recvs = append(recvs, unkRecv(ty), otherRecv(nullableValue(ty)), nullRecv(ty))
 		}
 		recvs = append(recvs, nullRecv(cty.DynamicPseudoType))
